@@ -106,10 +106,10 @@ def sampled_jobs(chk):
     enumerate, so a state constraint keeps a pseudo-random 1/K of the prefixes beyond length 3 (the kept
     set depends on VERIF_SEED); every kept state is still checked and replayed exactly."""
     js = []
-    for cplx, order, parts, k in ((False, 6, '-3..3', 3), (True, 4, '-2..2', 5)):
+    for cplx, order, parts, k, free in ((False, 6, '-3..3', 3, 3), (True, 4, '-2..2', 12, 2)):
         mod = ('---- MODULE MC_LevSampled ----\nEXTENDS Levinson\nPartsBig == %s\n'
                'HashSeq(s) == LET F[i \\in 0..Len(s)] == IF i = 0 THEN 0 ELSE F[i - 1] + i * (s[i][1][1] + 3 * s[i][2][1] + 7) IN F[Len(s)]\n'
-               'Sampled == Len(r) <= 3 \\/ (HashSeq(r) + %d) %% %d = 0\n====\n' % (parts, chk.seed, k))
+               'Sampled == Len(r) <= %d \\/ (HashSeq(r) + %d) %% %d = 0\n====\n' % (parts, free, chk.seed, k))
         cfg = tlc._cfg_text(constants={'MaxOrder': order, 'R0Set': {2, 3, 5}, 'Parts': '<- PartsBig', 'Complex': cplx},
                             invariants=['ToeplitzEquation', 'ProductFormula', 'ReflectionBound', 'Stable', 'MinorCheck'],
                             constraint='Sampled')
